@@ -329,6 +329,12 @@ impl<VM: VMBinding> FreeListPageResource<VM> {
         }
         /* now return the address space associated with the chunk for global reuse */
 
+        // The chunks may be handed to another space next, which does not unprotect memory
+        // before using it.
+        if self.protect_memory_on_release.is_some() {
+            self.munprotect(chunk, num_chunks * PAGES_IN_CHUNK);
+        }
+
         self.common.release_discontiguous_chunks(chunk);
     }
 
